@@ -57,6 +57,7 @@ type Result struct {
 	WallUs  int64          `json:"wall_us"`
 	MemMB   int            `json:"mem_mb"` // memory obtained from the OS by this worker process after the run
 	SigHits map[string]int `json:"sig_hits,omitempty"`
+	PUHits  map[string]int `json:"pu_hits,omitempty"`
 	Desc    string         `json:"desc,omitempty"` // one-line description of the generated case
 }
 
@@ -103,6 +104,10 @@ func Execute(t *testing.T, job *Job) (res Result) {
 		r.Sites = Inventory(t)
 		// the inventory run drew from its own tape: what the recorder file holds from here on is this job's tape only
 		resetTapeFile()
+		if job.Knobs["uyield"] != 0 {
+			r.SitesPU = InventoryPU(t)
+			resetTapeFile()
+		}
 		if k := job.Knobs["holdsite"]; k > 0 && k <= len(r.Sites) {
 			r.ForceSite = r.Sites[k-1]
 		}
@@ -189,6 +194,7 @@ func Execute(t *testing.T, job *Job) (res Result) {
 	}
 	if job.WantLog && r.Sched != nil {
 		res.SigHits = r.Sched.SigHits
+		res.PUHits = r.Sched.PUHits
 	}
 	res.WallUs = time.Since(start).Microseconds()
 	var ms runtime.MemStats
